@@ -4,6 +4,6 @@ CONSTANTS
   WA = 2
   WM = 2
   MaxCount = 5
-  Modes = {"map", "tuple", "wide"}
+  Modes = {"map", "tuple", "wide", "crit"}
 SPECIFICATION Spec
 INVARIANT Emit
